@@ -123,6 +123,12 @@ def prefixes(docs):
     return out
 
 
+# inputs on which a minifier returns an error after it has already written output
+FAIL_AFTER_OUTPUT = {
+    'json': [b'[1, 2, 3] x', b'{"a": 1} }', b'[true, false, nul]', b'{"a": [1, 2], b}'],
+    'html': [b'<b>x</b><script>var = ;</script>', b'<p>a</p><style>a{b:c}</style><p onclick="x(">b</p><script>(</script>'],
+    'svg': [b'<svg><g id="a"/><script>var = ;</script></svg>'],
+}
 BENCH = {'css': ['sample_normalize.css'], 'html': ['sample_blogpost.html'], 'js': ['sample_dot.js'],
          'json': ['sample_twitter.json'], 'svg': ['sample_gopher.svg'], 'xml': ['sample_books.xml', 'sample_catalog.xml']}
 BENCH_THOROUGH = {'css': ['sample_fontawesome.css'], 'html': ['sample_bbc.html'], 'js': ['sample_moment.js'],
@@ -170,7 +176,8 @@ MON = ['MonitorQuiet', 'MonitorFinal']
 MUTANTS = [('nodelcl', ['ContentLengthGone', 'MonitorFinal']), ('nowait', ['CloseWaits', 'NoWriteAfterClose'] + MON), ('noerr', ['CloseWaits', 'FaultSurfaces', 'NoSilentTruncation'] + MON),
            ('noprobe', ['FaultSurfaces', 'NoSilentTruncation']), ('extfirst', ['SelectionRule', 'ChunkingInvariance'] + MON),
            ('eofswallow', ['FaultSurfaces', 'NoSilentTruncation'] + MON),
-           ('addinside', ['CloseWaits', 'ChunkingInvariance', 'NoWriteAfterClose'] + MON)]
+           ('addinside', ['CloseWaits', 'ChunkingInvariance', 'NoWriteAfterClose'] + MON),
+           ('dirtybuf', ['NoPartialInput', 'ChunkingInvariance'] + MON)]
 
 
 def model_check_jobs(ctx, tier, mutants):
@@ -345,6 +352,9 @@ def identity(c):
     d = {k: c[k] for k in ('mode', 'mt', 'reg', 'chunks', 'rbufs', 'pace', 'ff', 'sf', 'short', 'serr', 'gate', 'after', 'rep', 'ct',
                            'uri', 'cl', 'wh', 'status') if k in c and c[k] not in (None, '', [], False)}
     d['in'] = bytes(c['in']).decode('latin1')
+    if c.get('pre'):
+        d['pre'] = [dict(mode=p['mode'], mt=p['mt'], **{'in': bytes(p['in']).decode('latin1') if not isinstance(p['in'], str) else p['in']})
+                    for p in c['pre']]
     return d
 
 
@@ -546,14 +556,30 @@ def make_cases(ctx, inits, cuts, suite, bench, profile):
             B.add(mode='writer', mt=mt_for(t, reg, rnd, params=False), reg=reg, chunks=[], tag='closefirst:' + t, rep=r,
                   gate=(r % 2 == 0), ff=(1 if r % 3 == 0 else 0), after=(r % 5 == 0), **{'in': b''})
     n_first = len(B.cases) - n_init - n_exh - n_seeded - n_prefix
+    # (6) call histories on the helpers: calls that fail AFTER having produced output, then a call on valid input; the
+    #     judged call must equal the plain call (nothing carried over from an earlier call)
+    for t in ORDER:
+        valid = [x for x in suite[t] if 0 < len(x) <= 120]
+        for r in range(20 if quick else 120):
+            data = rnd.choice(valid)
+            reg = REGS[r % 3]
+            pre = [dict(mode=rnd.choice(['bytes', 'string']), mt=TYPES[pt]['mt'], **{'in': list(rnd.choice(FAIL_AFTER_OUTPUT[pt]))})
+                   for pt in [rnd.choice(sorted(FAIL_AFTER_OUTPUT)) for _ in range(rnd.choice([1, 1, 2, 3]))]]
+            B.add(mode=['bytes', 'string'][r % 2], mt=mt_for(t, reg, rnd, params=False), reg=reg, chunks=[], tag='history:' + t,
+                  pre=pre, **{'in': data})
+    n_hist = len(B.cases) - n_init - n_exh - n_seeded - n_prefix - n_first
     stats = dict(sessions_from_initial_states=n_init, sessions_exhaustive_partitions=n_exh,
-                 sessions_seeded_partitions=n_seeded, sessions_prefix_family=n_prefix, sessions_close_first=n_first,
+                 sessions_seeded_partitions=n_seeded, sessions_prefix_family=n_prefix, sessions_close_first=n_first, sessions_helper_history=n_hist,
                  short_inputs_exhausted=exh_inputs,
                  initial_states_enumerated=len(inits), initial_states_used=len(chosen))
     return B.cases, stats
 
 
 # ---------------------------------------------------------------- RUN
+def nprocs():
+    return max(1, min(vlib.JOBS, 8))
+
+
 CRASHED = []        # enumeration cases during which the driver process died: (case, stderr)
 
 
@@ -561,7 +587,7 @@ def run_driver(ctx, exe, cases, tag, procs=None, timeout=1500):
     """run the driver over the cases (several processes); returns the list of output lines (str), aligned with cases
     for non-enumerating cases.  A blocked session stops its process (exit 3): the rest is resumed in a new one.
     A crashed process (panic inside a goroutine of the code under test) yields a synthetic Panic line."""
-    procs = procs or max(1, min(vlib.JOBS, 8))
+    procs = procs or nprocs()
     n = len(cases)
     if n == 0:
         return []
@@ -742,7 +768,8 @@ def confirm_and_report(ctx, exe, cases, lines, rejects, limit=30):
     why = {}
     for i, w in rejects:
         why.setdefault(i, []).append(w)
-    bad = sorted(why)
+    # sessions that carry their own call history first: they are self-contained witnesses
+    bad = sorted(why, key=lambda i: (0 if cases[i].get('pre') else 1, i))
     reproduced = 0
     again = []          # (case index, line) of the reruns that completed
     for i in bad[:limit]:
@@ -774,6 +801,33 @@ def confirm_and_report(ctx, exe, cases, lines, rejects, limit=30):
             s = json.loads(l)
             ctx.report(identity(c), describe(c, '; '.join(sorted(set(why2[k])))),
                        dict(case=identity(c), events=[[e['k'], e['n'], e['c'], e['e'], e['t'][:80]] for e in s['ev']][:200]))
+    if reproduced == 0 and again:
+        # Not reproducible alone: the outcome may depend on what the same process did BEFORE this session (state carried
+        # over between calls - itself a defect of an entry point that must equal the plain call).  Re-run the session
+        # behind the sessions that preceded it in its process, shortest history first.
+        P = nprocs()
+        for i, _ in again[:6]:
+            for H in (1, 4, 16, 64):
+                pred = [j for j in range(i - H * P, i, P) if j >= 0]
+                seq = [dict(cases[j]) for j in pred] + [dict(cases[i])]
+                cin = ctx.path('alone', 'h%d-%d-cases.ndjson' % (i, H))
+                cout = ctx.path('alone', 'h%d-%d-trace.ndjson' % (i, H))
+                vlib.write_ndjson(cin, seq)
+                r = subprocess.run([exe, cin, cout], capture_output=True, text=True, timeout=300,
+                                   env=dict(os.environ, GOMAXPROCS=str([1, 2, 4, 8][(i % P) % 4])))
+                lines2 = [l.rstrip('\n') for l in open(cout)] if os.path.exists(cout) else []
+                if r.returncode != 0 or len(lines2) != len(seq):
+                    break
+                acc, rej2 = validate(ctx, lines2[-1:])
+                if rej2:
+                    reproduced += 1
+                    c = cases[i]
+                    ident = dict(identity(c), history=[identity(cases[j]) for j in pred])
+                    ctx.report(ident, describe(c, 'only after %d earlier session(s) in the same process (state carried over between calls): %s'
+                                               % (len(pred), '; '.join(sorted(set(w for _, w in rej2))))), dict(case=ident))
+                    break
+            if reproduced >= 3:
+                break
     ctx.coverage['rejections'] = len(bad)
     ctx.coverage['rejections_reproduced'] = reproduced
     if reproduced == 0:
@@ -894,7 +948,7 @@ def run(ctx):
     inits, cuts, rg = gen.result()
     phase(ctx, 'generated')
     # ---- MC (runs concurrently with the real sessions and their validation)
-    futs = [(n, pool.submit(f)) for n, f in model_check_jobs(ctx, 'quick' if quick else 'thorough', MUTANTS[:2] + MUTANTS[4:5] + MUTANTS[6:7] if quick else MUTANTS)]
+    futs = [(n, pool.submit(f)) for n, f in model_check_jobs(ctx, 'quick' if quick else 'thorough', MUTANTS[:2] + MUTANTS[4:5] + MUTANTS[6:8] if quick else MUTANTS)]
     cases, stats = make_cases(ctx, inits, cuts, suite, bench, profile)
     pinned = vlib.known_cases(PID)
     for p in pinned:
@@ -997,10 +1051,26 @@ def run(ctx):
 def replay(ctx, obj):
     exe = build(ctx)
     c = dict(obj['case'])
-    c['in'] = list(c['in'].encode('latin1')) if isinstance(c['in'], str) else c['in']
-    c.setdefault('id', 0)
-    c.setdefault('small', SMALL)
-    status, lines, err = run_alone(ctx, exe, c, 'replay')
+    hist = c.pop('history', [])
+
+    def concrete(x):
+        x = dict(x)
+        x['in'] = list(x['in'].encode('latin1')) if isinstance(x['in'], str) else x['in']
+        for q in x.get('pre', []):
+            q['in'] = list(q['in'].encode('latin1')) if isinstance(q['in'], str) else q['in']
+        x.setdefault('id', 0)
+        x.setdefault('small', SMALL)
+        return x
+    c = concrete(c)
+    if hist:
+        seq = [concrete(h) for h in hist] + [c]
+        cin, cout = ctx.path('alone', 'replay-cases.ndjson'), ctx.path('alone', 'replay-trace.ndjson')
+        vlib.write_ndjson(cin, seq)
+        subprocess.run([exe, cin, cout], capture_output=True, text=True, timeout=300)
+        lines = [l.rstrip('\n') for l in open(cout)][-1:] if os.path.exists(cout) else []
+        status, err = ('ok' if lines else 'failed'), ''
+    else:
+        status, lines, err = run_alone(ctx, exe, c, 'replay')
     if status != 'ok' or not lines:
         print('session did not complete:', status, err[-500:])
         print('VIOLATION property=%s replay=given' % PID)
